@@ -28,7 +28,7 @@ def p_block(style, with_comments=True):
 
 
 def p_media(ml):
-    return tuple(vtoks(q.value.mediaText.lower()) for q in ml)
+    return tuple(vtoks(ml[i].mediaText.lower()) for i in range(len(ml)))
 
 
 def p_rule(r, with_comments=True, specificity=True, resolved=False):
